@@ -47,7 +47,8 @@ type Store struct {
 	InsertDelay func()
 	// ReadDelay, when non-nil, is called before every read (free-running jitter).
 	ReadDelay func()
-	// FailKeyLookup, when non-nil, is asked before every lookup of an idempotency key: true makes the lookup fail.
+	// FailKeyLookup, when non-nil, is asked before every lookup of an idempotency key, of a reference and of a
+	// transaction by id: true makes the lookup fail.
 	FailKeyLookup func(ctx context.Context) bool
 }
 
@@ -221,6 +222,9 @@ func (s *Store) ReadLogWithIdempotencyKey(ctx context.Context, key string) (*led
 
 func (s *Store) GetTransactionByReference(ctx context.Context, ref string) (*ledger.ExpandedTransaction, error) {
 	s.delay()
+	if f := s.FailKeyLookup; f != nil && f(ctx) {
+		return nil, ErrRead
+	}
 	s.mu.Lock()
 	defer s.mu.Unlock()
 	for _, l := range s.logs {
@@ -233,6 +237,9 @@ func (s *Store) GetTransactionByReference(ctx context.Context, ref string) (*led
 
 func (s *Store) GetTransaction(ctx context.Context, txID *big.Int) (*ledger.Transaction, error) {
 	s.delay()
+	if f := s.FailKeyLookup; f != nil && f(ctx) {
+		return nil, ErrRead
+	}
 	s.mu.Lock()
 	defer s.mu.Unlock()
 	for _, l := range s.logs {
